@@ -230,7 +230,12 @@ func (m *M) check(b, route string, a Args, pre *snapshot, r *world.Result) {
 			issued++
 		}
 	}
-	mwAuth := rememberOn && oldU == "" && rememberLicence(pre, newU) && newU != ""
+	// the pid the presented cookie names (whatever identity the request ends with)
+	cookiePID := ""
+	if raw, err := base64.URLEncoding.DecodeString(pre.cook["rm"]); err == nil && len(raw) >= 33 {
+		cookiePID = string(raw[:len(raw)-33])
+	}
+	mwAuth := rememberOn && oldU == "" && cookiePID != "" && rememberLicence(pre, cookiePID)
 	if r.Wrote && r.Panic == "" {
 		asked := a.RM
 		if route == "oend" {
@@ -240,7 +245,7 @@ func (m *M) check(b, route string, a Args, pre *snapshot, r *world.Result) {
 			m.violate("C07", "issue-unasked", fmt.Sprintf("a remember cookie was issued by a %s request that did not ask to be remembered", route), b)
 		}
 		if mwAuth {
-			if post.Sess["halfauth"] != "true" && !(route == "login" || route == "otplogin" || route == "oend" || route == "totpvalidate" || route == "smsvalidate" || route == "logout") {
+			if post.Sess["halfauth"] != "true" && newU == cookiePID && !(route == "login" || route == "otplogin" || route == "oend" || route == "totpvalidate" || route == "smsvalidate" || route == "logout") {
 				m.violate("C07", "no-halfauth", "a remember-cookie login did not mark the session half-authenticated", b)
 			}
 			if post.Cook["rm"] == pre.cook["rm"] && route != "logout" {
